@@ -519,6 +519,26 @@ func main() {
 		writeIfChanged(filepath.Join(*out, "ConfigFacts.lean"), cf)
 	}
 
+	// ---- Tokens.lean (C02, C15) --------------------------------------------
+	var tf []byte
+	var tnotes []string
+	func() {
+		defer func() {
+			if rec := recover(); rec != nil {
+				tnotes = append(tnotes, fmt.Sprintf("static tie unavailable for the token facts (extractor: %v); baseline kept", rec))
+				tf, _ = os.ReadFile(filepath.Join(baselineDir, "Tokens.lean"))
+			}
+		}()
+		sec, err := load(filepath.Join(*repo, "cmd/rdpgw/security"), false)
+		if err != nil {
+			panic(err)
+		}
+		tf, tnotes = tokenFacts(sec)
+	}()
+	if len(tf) > 0 {
+		writeIfChanged(filepath.Join(*out, "Tokens.lean"), tf)
+	}
+
 	// ---- Process.lean (C01, C16) -------------------------------------------
 	var pf []byte
 	var pnotes []string
@@ -536,6 +556,7 @@ func main() {
 	}
 	notes = append(notes, pnotes...)
 	notes = append(notes, cnotes...)
+	notes = append(notes, tnotes...)
 
 	for _, m := range missing {
 		fmt.Println("extract: missing", m)
